@@ -25,5 +25,13 @@ mod h_iter;
 mod h_retain;
 #[cfg(all(kani, not(feature = "counters")))]
 mod h_entry;
+#[cfg(all(kani, not(feature = "counters")))]
+mod h_drop;
+#[cfg(all(kani, not(feature = "counters")))]
+mod h_clone;
+#[cfg(all(kani, not(feature = "counters")))]
+mod h_set;
+#[cfg(all(kani, not(feature = "counters")))]
+mod h_eq;
 #[cfg(all(kani, feature = "counters"))]
 mod h_cnt;
